@@ -90,8 +90,6 @@ UrlOf(p) == "http://" \o (IF p.userinfo # "" THEN p.userinfo \o "@" ELSE "") \o 
 
 OriginForm(p, cfg) == (IF cfg.noNormPath THEN RawPath(p.path) ELSE NormPath(p.path))
                       \o (IF p.query # "" THEN "?" \o p.query ELSE "")
-HostLine(p) == IF p.opts.hostHdr # "" THEN p.opts.hostHdr ELSE p.host
-
 \* multipart parts: the simple fields first (text), then the parts with content (provenance runs)
 ExpParts(b) ==
     [k \in 1 .. Len(b.kvs) |-> [name |-> b.kvs[k].k, filename |-> "", ctype |-> "", n |-> Len(b.kvs[k].v), isText |-> TRUE,
@@ -103,6 +101,34 @@ ExpParts(b) ==
            ctype |-> IF f.api = "field" /\ f.filename # "" THEN f.ctype ELSE "",
            n |-> f.n, isText |-> FALSE, text |-> "", runs |-> IF f.n = 0 THEN << >> ELSE <<<<f.i, 0, f.n>>>>]]
 
+\* Operations on the specially stored request headers (prog.special), carried out in order after everything else:
+\* the LAST writer of a name wins, a deleted name is absent (Host: back to the URL's host), whichever API was used --
+\* Header.Set(name, v) / Header.Del(name) or the dedicated setters.
+SetCookieIn(cs, ck, cv) == IF \E j \in DOMAIN cs : cs[j].k = ck
+                           THEN [j \in DOMAIN cs |-> IF cs[j].k = ck THEN [k |-> ck, v |-> cv] ELSE cs[j]]
+                           ELSE Append(cs, [k |-> ck, v |-> cv])
+ApplyOp(st, o) ==
+    CASE o.op = "setHost" \/ (o.op = "set" /\ o.name = "Host") -> [st EXCEPT !.host = o.value]
+      [] o.op = "del" /\ o.name = "Host" -> [st EXCEPT !.host = ""]
+      [] o.op = "setUA" \/ (o.op = "set" /\ o.name = "User-Agent") -> [st EXCEPT !.ua = o.value]
+      [] o.op = "del" /\ o.name = "User-Agent" -> [st EXCEPT !.ua = ""]
+      [] o.op = "setCT" \/ (o.op = "set" /\ o.name = "Content-Type") -> [st EXCEPT !.ct = o.value]
+      [] o.op = "del" /\ o.name = "Content-Type" -> [st EXCEPT !.ct = ""]
+      [] o.op = "setClose" \/ (o.op = "set" /\ o.name = "Connection" /\ o.value = "close") -> [st EXCEPT !.close = TRUE]
+      [] o.op = "set" /\ o.name = "Connection" -> [st EXCEPT !.close = FALSE]
+      [] o.op = "resetClose" \/ (o.op = "del" /\ o.name = "Connection") -> [st EXCEPT !.close = FALSE]
+      [] o.op = "setCookie" -> [st EXCEPT !.cookies = SetCookieIn(st.cookies, o.name, o.value)]
+      [] o.op = "del" /\ o.name = "Cookie" -> [st EXCEPT !.cookies = << >>]
+      [] OTHER -> st                      \* set Content-Length: framing fields are not compared (only counted)
+RECURSIVE ApplyOps(_, _)
+ApplyOps(st, ops) == IF ops = << >> THEN st ELSE ApplyOps(ApplyOp(st, Head(ops)), Tail(ops))
+Special(p) == ApplyOps([host |-> p.opts.hostHdr, ua |-> "", ct |-> "", close |-> p.opts.close, cookies |-> << >>], p.special)
+EffClose(p) == Special(p).close
+HostLine(p) == IF Special(p).host # "" THEN Special(p).host ELSE p.host
+CookieLine(cs) == JoinWith([j \in DOMAIN cs |-> cs[j].k \o "=" \o cs[j].v], "; ")
+\* names that may occur at most once among the header lines of a request
+SingleNames == {"host", "content-length", "connection", "user-agent", "content-type", "cookie", "transfer-encoding"}
+
 ExpectedRequest(p, cfg) ==
     [method |-> p.method,
      target |-> IF cfg.proxy THEN "http://" \o p.host \o OriginForm(p, cfg) ELSE OriginForm(p, cfg),
@@ -110,9 +136,12 @@ ExpectedRequest(p, cfg) ==
      hostLine |-> HostLine(p),                                      \* the literal Host header field
      addr   |-> IF cfg.proxy THEN ProxyAddr ELSE AddPort(p.host),  \* where the connection goes
      fields |-> [k \in 1 .. Len(p.hdrs) |-> [name |-> ReqNameForms(p.hdrs[k].name).lower, value |-> p.hdrs[k].value]]
-                \o (IF p.userinfo # "" THEN <<[name |-> "authorization", value |-> BasicAuth(p.userinfo)]>> ELSE << >>),
+                \o (IF p.userinfo # "" THEN <<[name |-> "authorization", value |-> BasicAuth(p.userinfo)]>> ELSE << >>)
+                \o (IF Special(p).ua # "" THEN <<[name |-> "user-agent", value |-> Special(p).ua]>> ELSE << >>)
+                \o (IF Special(p).ct # "" THEN <<[name |-> "content-type", value |-> Special(p).ct]>> ELSE << >>)
+                \o (IF Special(p).cookies # << >> THEN <<[name |-> "cookie", value |-> CookieLine(Special(p).cookies)]>> ELSE << >>),
      wireNames |-> [k \in 1 .. Len(p.hdrs) |-> IF cfg.noNormHdr THEN p.hdrs[k].name ELSE ReqNameForms(p.hdrs[k].name).canon],
-     close  |-> p.opts.close,
+     close  |-> EffClose(p),
      kind   |-> p.body.kind,
      bodyLen |-> IF p.body.kind \in {"bytes", "stream"} THEN p.body.n ELSE 0,
      body   |-> IF p.body.kind \in {"bytes", "stream"} /\ p.body.n > 0 THEN <<<<p.body.i, 0, p.body.n>>>> ELSE << >>,
@@ -124,6 +153,9 @@ WellFormedProg(p) ==
     /\ p.body.kind # "none" => p.method \in {"POST", "PUT", "PATCH", "DELETE"}
     /\ p.body.kind = "stream" => p.body.declared \in {p.body.n, -1}
     /\ p.url = UrlOf(p)
+    \* the dedicated-setter programs do not also Add the same names, and leave the content type of forms alone
+    /\ p.special # << >> => /\ \A j \in DOMAIN p.hdrs : p.hdrs[j].name \notin {"User-Agent", "Content-Type"}
+                            /\ (p.body.kind \in {"form", "multipart"} => \A j \in DOMAIN p.special : p.special[j].op # "setCT" /\ p.special[j].name # "Content-Type")
 
 -----------------------------------------------------------------------------
 (* comparison of what a decoder / the client reported with the expectation *)
@@ -170,8 +202,9 @@ OnWireOK(L, e) ==
 \* the raw head of the request: start line, one Host line, spelling of the application names
 RawOK(L, e) ==
     /\ L.start = e.method \o " " \o e.target \o " HTTP/1.1"
-    /\ Cardinality({k \in DOMAIN L.lines : L.lines[k].name \in {"Host", "host", "HOST"}}) = 1
-    /\ \A k \in DOMAIN L.lines : L.lines[k].name \in {"Host", "host", "HOST"} => L.lines[k].value = e.hostLine
+    /\ Cardinality({k \in DOMAIN L.lines : L.lines[k].lname = "host"}) = 1
+    /\ \A k \in DOMAIN L.lines : L.lines[k].lname = "host" => L.lines[k].value = e.hostLine
+    /\ \A n \in SingleNames : Cardinality({k \in DOMAIN L.lines : L.lines[k].lname = n}) <= 1
     /\ XNamesOK([k \in DOMAIN L.lines |-> L.lines[k].name], e.wireNames)
 
 \* the body of the response is over the configured limit
@@ -188,6 +221,8 @@ ReturnedOK(L, s, cfg) ==
          /\ XNamesOK(L.names, e.names)
          /\ L.bodyLen = e.bodyLen /\ L.bodyRuns = e.body
          /\ FieldsOK(L.trailers, e.trailers, {})
+         \* a response framed by Content-Length shows that field (also for the one-digit lengths)
+         /\ s.framing = "cl" => L.cl = ToDec(s.bodyLen)
 
 -----------------------------------------------------------------------------
 (* Part 2: the connection state machine *)
